@@ -56,3 +56,5 @@ def run(ctx):
     # a node reached through an alias is seasoned a second time: the transforms must find nothing left to do (kind and presence
     # are looked at before anything is written)
     H.r15_2_do_nothing_exits(ctx, 'R18.11', guards_only=True)
+    from . import memo_rules as M
+    M.memo_sound(ctx, 'R18.M')
